@@ -196,7 +196,7 @@ class SimNet:
         loop = asyncio.get_running_loop()
         await asyncio.sleep(0)
         srv = self.listeners.get(port)
-        if "client" in self.dead_sides:
+        if "client" in self.dead_sides or (port == 21 and "client-ctrl" in self.dead_sides):
             raise ConnectionAbortedError(errno.ECONNABORTED, "client host is gone")
         if srv is None:
             raise ConnectionRefusedError(errno.ECONNREFUSED, "refused")
